@@ -791,3 +791,65 @@ func init() {
 		r.Floor("NewIndexJoinPlanNode call sites", n, 1)
 	})
 }
+
+func init() {
+	reg("C11-R7", "no WHERE comparison between the two join sides is dropped: in findBestJoinInner a comparison between a column of the left plan and a column of the right plan is collected for the selection above the join whatever its operator — with `ComparisonOperationType == Equal` assumed false, the append to the collected conditions is still reachable (only equalities become join keys, the others are filters)", func(w *World, r *Report) {
+		fn := w.Fn("planner/optimizer", "SelingerOptimizer", "findBestJoinInner")
+		opFld := w.Field("parser", "BinaryOpExpression", "ComparisonOperationType")
+		eqV, _ := constant.Int64Val(w.Const("execution/expression", "Equal").Val())
+		notEqual := specCutNot(func(v ssa.Value) bool { return fieldLoadOf(v, opFld) }, eqV)
+		isCollect := func(in ssa.Instruction) bool {
+			c, ok := in.(*ssa.Call)
+			if !ok {
+				return false
+			}
+			b, ok := c.Call.Value.(*ssa.Builtin)
+			if !ok || b.Name() != "append" {
+				return false
+			}
+			sl, ok := c.Type().Underlying().(*types.Slice)
+			return ok && strings.HasSuffix(sl.Elem().String(), "parser.BinaryOpExpression")
+		}
+		n := 0
+		for _, b := range fn.Blocks {
+			for _, in := range b.Instrs {
+				if isCollect(in) {
+					n++
+				}
+			}
+		}
+		r.Floor("appends to the collected join conditions", n, 1)
+		nEq := countCutEdges(fn, []EdgeCut{notEqual})
+		wit := (&PathQ{Fn: fn, Cut: []EdgeCut{notEqual}, Target: isCollect}).FromEntry()
+		r.Check(wit != nil, "findBestJoinInner:non-equality-cross-conditions-are-collected", "a comparison between columns of both sides that is not an equality is still collected (and applied above the join)", fmt.Sprintf("with the operator assumed different from Equal (%d tests of the operator) no condition is collected: `left.a < right.b` is applied nowhere", nEq))
+	})
+}
+
+// specCutNot: subject is assumed to differ from the constant k — removes the edges on which subject == k.
+func specCutNot(subj func(ssa.Value) bool, k int64) EdgeCut {
+	return func(b *ssa.BasicBlock, succ int) bool {
+		i := blockIf(b)
+		if i == nil {
+			return false
+		}
+		v, neg := condBase(i.Cond)
+		bo, ok := v.(*ssa.BinOp)
+		if !ok || (bo.Op != token.EQL && bo.Op != token.NEQ) {
+			return false
+		}
+		isK := func(x ssa.Value) bool {
+			cv, ok := constOf(x)
+			if !ok {
+				return false
+			}
+			iv, ok := constant.Int64Val(constant.ToInt(cv))
+			return ok && iv == k
+		}
+		if !((subj(stripConv(bo.X)) && isK(bo.Y)) || (subj(stripConv(bo.Y)) && isK(bo.X))) {
+			return false
+		}
+		binTrue := (succ == 0) != neg
+		equalOnEdge := binTrue == (bo.Op == token.EQL)
+		return equalOnEdge
+	}
+}
